@@ -718,6 +718,17 @@ impl OcflRepo {
     ) -> Result<()> {
         self.ensure_open()?;
 
+        // Moving a file out of the repository's own directories would corrupt it
+        for path in src {
+            let path = path.as_ref();
+            if self.store.contains_local_path(path) || self.get_staging()?.contains_local_path(path) {
+                return Err(RocflError::IllegalOperation(format!(
+                    "Cannot move {} because it is part of the repository",
+                    path.to_string_lossy()
+                )));
+            }
+        }
+
         self.operate_on_external_source(
             object_id,
             src,
